@@ -106,7 +106,7 @@ def write_evidence(prop, tier, mod, total, viols, known_seen, ctx, wall, configs
         "explanation": (getattr(mod, "EXPLANATION", "") or mod.__doc__ or "").strip(),
         "obligations": len(obls),
         "discharged": len([o for o in obls if o.ok]),
-        "evaluations": len(obls),
+        "evaluations": max(len(obls), getattr(total, "evaluations", 0)),
         "distinct_nontrivial": distinct,
         "rule": "one obligation per rule instance (call site, path, table entry, suspension point) found in the "
                 "built MIR of /repo's current tree; distinct = distinct (key, config) pairs; floors fail closed",
